@@ -371,6 +371,13 @@ fn c15_specs(thorough: bool) -> Vec<(String, ListenSpec)> {
         b.extend(req(Kind::Echo, Flag::None, "s"));
         ConnSpec { chunks: split_at(&b, b.len() - 10), closes: true, healthy: true, name: "streaming".into(), after_ticks: after, close_after_ticks: close_after, resets: false }
     };
+    // a peer that ends its connection in the middle of a message (the complete request before it is answered)
+    let truncated = |after: usize, close_after: usize| {
+        let mut b = req(Kind::Echo, Flag::None, "t");
+        let part = req(Kind::Echo, Flag::None, "never-completed");
+        b.extend(&part[..part.len() / 2]);
+        ConnSpec { chunks: vec![b], closes: true, healthy: true, name: "truncated".into(), after_ticks: after, close_after_ticks: close_after, resets: false }
+    };
     let pools: Vec<(usize, usize)> = if thorough { vec![(1, 1), (1, 2), (2, 4)] } else { vec![(1, 2)] };
     for idle in [0u64, 1, 2] {
         for flag in [false, true] {
@@ -396,6 +403,7 @@ fn c15_specs(thorough: bool) -> Vec<(String, ListenSpec)> {
                             if thorough || (*a == arrivals[arrivals.len() - 1] && *c == closes[closes.len() - 1]) || (*a == 0 && *c == 0) {
                                 v.push(mk(format!("{}-streaming@{}close@{}", tag, a, c), vec![streaming(*a, *c)]));
                                 v.push(mk(format!("{}-short@0,short@{}close@{}", tag, a, c), vec![short("a", 0, 0), short("b", *a, *c)]));
+                                v.push(mk(format!("{}-truncated@{}close@{}", tag, a, c), vec![truncated(*a, *c)]));
                             }
                             if thorough {
                                 v.push(mk(format!("{}-long@0close@{},short@{}", tag, c, a), vec![short("a", 0, *c), short("b", *a, 0)]));
@@ -411,7 +419,7 @@ fn c15_specs(thorough: bool) -> Vec<(String, ListenSpec)> {
 }
 
 fn c15(args: &Args) -> ! {
-    let mut rep = Report::new("C15", "the real listen() loop under the controlled scheduler with a virtual clock (an accept timeout advances the clock by the requested timeout): configurations idle_timeout {0,1,2}s x stop flag {absent,present} x pools x connection histories {none, short, two short, long-lived + short, streaming reply in flight, short+streaming} with scripted instants (in timeout answers) for arrival {at once, mid-period, just before the deadline}, peer close {at once, across one or several deadlines} and flag {never, at once, mid-period, after the deadline}; every interleaving of listen thread, workers and environment actions within the deviation bound (quick 1, thorough 2) around each scripted timeline; oracle: Timeout only after >= idle_timeout without a new connection and with no accepted connection unfinished at the decision, Ok only after the flag and at the first timeout answer after it, every accepted connection drained with its complete reply stream, socket path removed, never returns with idle_timeout 0 and no flag; non-trivial = distinct complete executions");
+    let mut rep = Report::new("C15", "the real listen() loop under the controlled scheduler with a virtual clock (an accept timeout advances the clock by the requested timeout): configurations idle_timeout {0,1,2}s x stop flag {absent,present} x pools x connection histories {none, short, two short, long-lived + short, streaming reply in flight, short+streaming, a peer that closes in the middle of a message} with scripted instants (in timeout answers) for arrival {at once, mid-period, just before the deadline}, peer close {at once, across one or several deadlines} and flag {never, at once, mid-period, after the deadline}; every interleaving of listen thread, workers and environment actions within the deviation bound (quick 1, thorough 2) around each scripted timeline; oracle: Timeout only after >= idle_timeout without a new connection and with no accepted connection unfinished at the decision, Ok only after the flag and at the first timeout answer after it, every accepted connection drained with its complete reply stream, socket path removed, never returns with idle_timeout 0 and no flag; non-trivial = distinct complete executions");
     install_hooks();
     let specs = c15_specs(args.thorough());
     if args.replay.is_some() {
